@@ -280,9 +280,11 @@ def koptimize(r0, r1, c0, c1, e_rows, e_cols, qx, qy, **kw):
     eh = r0 + r1 + (1 if e_rows > 0 else 0)
     e = ref(r0, r1, c0, c1, qx, qy)
     ok = t.get_value((qx, qy)) == e and rlib.xml_table_value(t, qx, qy) == e and t.height == eh and t.width == ew
+    f = rlib.fresh(t)
+    ok = ok and t._tmap == f._tmap and t._cmap == f._cmap
     xml = t.serialize()
     t.optimize_width()
-    return (not (ok and t.serialize() == xml)), f"optimize_width: size {t.width}x{t.height} expected {ew}x{eh}; value at ({qx},{qy}) {t.get_value((qx, qy))!r} expected {e!r}; idempotent {t.serialize() == xml}"
+    return (not (ok and t.serialize() == xml)), f"optimize_width: live maps {t._tmap}/{t._cmap}, of the XML read afresh {f._tmap}/{f._cmap}; size {t.width}x{t.height} expected {ew}x{eh}; value at ({qx},{qy}) {t.get_value((qx, qy))!r} expected {e!r}; idempotent {t.serialize() == xml}"
 
 
 def krstrip_styled_rows(r0, c0, e_rows, aggressive, qx, qy, **kw):
@@ -330,3 +332,18 @@ def ktrans_ragged(w0, w1, rep, qx, qy, **kw):
     except Exception as e:  # noqa: BLE001
         return True, f"transpose of a ragged table (row widths {w0}, {w1}) raised {e!r}"
     return (a != orig(qx, qy) or b != orig(qx, qy)), f"({qx},{qy}) = {orig(qx, qy)!r}: after one transpose {a!r} at ({qy},{qx}), after two {b!r}"
+
+
+def kget_empty_table(x, y, **kw):
+    t = Table("t")
+    try:
+        c = t.get_cell((x, y))
+        v = t.get_value((x, y))
+        r = t.get_row(y)
+        row = Row()
+        rc = row.get_cell(x)
+        rv = row.get_value(x)
+    except Exception as e:  # noqa: BLE001
+        return True, f"reading ({x},{y}) in an empty table/row raised {e!r}"
+    ok = c.get_value() is None and v is None and r.width == 0 and t.size == (0, 0) and rc.get_value() is None and rv is None and row.width == 0
+    return (not ok), f"empty table read at ({x},{y}): cell {c.get_value()!r}, value {v!r}, row width {r.width}, table size {t.size}"
